@@ -35,6 +35,10 @@ func SendPing(ctx context.Context, s NetcForPing, target string, hopsToLive byte
 	doneChan := make(chan struct{})
 	unrCh := pc.SubscribeUnreachable(doneChan)
 	defer close(doneChan)
+	if unrCh == nil {
+		// no subscription is possible any more: the node is shutting down
+		return 0, "", fmt.Errorf("netceptor shutdown")
+	}
 	type errorResult struct {
 		err      error
 		fromNode string
